@@ -6,7 +6,8 @@ Model: lean/Ladybug/Model/Group.lean (polymorphic grouping) + Model/Stats.lean (
 theorems: lean/Ladybug/Props/C03.lean (lemmas Proofs/C03*.lean); driver: drv_c03.
 Tie: correspondence (C) on the ops below, incl. whole operation histories compared step by step.
 
-The model describes ladybug/datacollection.py WITH fixes/C03_1..C03_6 applied (see Model/Group.lean).
+The model describes ladybug/datacollection.py WITH fixes/C03_1..C03_7 applied (see Model/Group.lean) and with
+the refusal of a non-dividing in-place cull of a continuous collection (/repo 2b7dc5a).
 
 Producers and their consumers (each consumer is exercised by the correspondence and/or the oracle, so a
 producer changed together with ONE consumer shows in the others):
@@ -35,6 +36,42 @@ Round 3: operation histories on one object and on families of objects in one pro
 refused operations followed by reads, the same question twice, collections that differ in one respect -
 leap flag, same day numbers in the other kind of year, timestep, shifted, same period - interleaved),
 the same cases in 3-4 fresh interpreters in different orders (rare classes first in one of them).
+
+Round 4 (kinds e-j):
+  (e) every operation on every concrete class: `order_stats` runs on the five collection classes and their
+      immutable twins; `partition` / `stats_of_groups` / `daily_month` take an `imm` flag; `cont_vs_disc`
+      compares the continuous class with its immutable twin, its to_discontinuous() image and an independently
+      built immutable discontinuous collection (groups, interval statistics, order statistics).
+  (f) every sequence argument in every container (`shapes`: values as list / tuple / deque / array /
+      dict values / python ints; datetimes as list / tuple / generator / iter / map / deque; the lists handed to
+      a constructor or to `values =` are edited afterwards); every answer that is a container is edited in
+      place and the question asked again (`ask` 2, `edited-answer-*`); answers are kept and looked at again after
+      later calls (`earlier-answer-changed`); reads must leave values / datetimes as they were.
+  (g) conventions between anchored functions, each with inputs on which the plausible alternatives differ:
+      day number 1-based + kind of year (daily -> month through DateTime.from_hoy; last days of the months in
+      both kinds of year), month number vs position in the days-per-month table (periods starting after
+      February in leap years), percentile 0..100 vs 0..1 (p inside (0,1)), mean of the group vs mean of daily
+      means (groups of unequal size), kind of year of a result header (a day number names a date only with it:
+      `result-leap-flag`, and the daily->monthly chain).
+  (h) no absolute tolerance: float noise is bounded relative to the data of the statistic (`_tol`), value
+      strata 'tiny' (1e-12 .. 1e-200), 'huge' (1e15..1e16), 'zeros', 'cancel' (totals 0 with data), 'half'.
+  (i) numbers as text and in other forms: periods built by from_string (also zero-padded / upper case),
+      string arguments, from_dict, documented defaults given as None / 0, from_start_end_datetime; DateTimes by
+      constructor / from_moy / from_hoy / from_date_time_string / from_array / from_dict; counts as 2.0 / '2';
+      unsorted and repeated days in daily collections.
+  (j) branches of the anchored functions, each reached by a counted stratum `branch:…` (evidence):
+      disc.group_by_day  365 / 366 keys;  cont.group_by_day  plain period / wrapped period (two loops);
+      cont.group_by_month  single month (no loop) / several months / month visited twice, first month partial /
+      whole;  group_by_month_per_hour  per timestep;  cont.datetimes  lazy first use / slot already filled;
+      _time_interval_operation  average / total / percentile, daily / monthly / monthlyperhour, empty group
+      skipped / every group filled / group of zeros is not empty, new header (sub-hourly daily|monthly) / header
+      duplicated  [the `else: raise ValueError('Invalid input value for interval')` branch is unreachable
+      through the public API: the three public callers pass constants];  _monthly_operation  empty month
+      skipped;  daily.group_by_month  leap / common, days not ascending, repeated day, last day of a month /
+      of the year;  _percentile  f == c / interpolated / single value;  highest_/lowest_values  count one /
+      some / all, ties, count as int / float / str, refused (0, n + 1, negative);  values setter  accepted /
+      wrong length / empty / not a sequence / one-shot iterable / immutable;  convert_to_culled_timestep
+      accepted / refused.
 """
 import itertools
 import json
@@ -52,7 +89,7 @@ PROP = 'C03'
 PROOF_MODULES = ['Ladybug.Props.C03']
 GREP_MODULES = ['Ladybug.Py', 'Ladybug.Model.Cal', 'Ladybug.Model.AP', 'Ladybug.Model.Group',
                 'Ladybug.Model.Stats', 'Ladybug.Proofs.C03Dict', 'Ladybug.Proofs.C03Cont',
-                'Ladybug.Proofs.C03Stats', 'Ladybug.Proofs.C03Samples', 'Ladybug.Proofs.C03Month', 'Ladybug.Proofs.C03Mph', 'Ladybug.Model.GroupObj', 'Ladybug.Proofs.C03Obj', 'Ladybug.Drv.C03',
+                'Ladybug.Proofs.C03Stats', 'Ladybug.Proofs.C03Samples', 'Ladybug.Proofs.C03Month', 'Ladybug.Proofs.C03Mph', 'Ladybug.Model.GroupObj', 'Ladybug.Proofs.C03Obj', 'Ladybug.Proofs.C03Cull', 'Ladybug.Drv.C03',
                 'Ladybug.DrvCore']
 RULE = ('correspondence: hourly collections built from plain numbers — continuous (whole-day periods: '
         'annual / partial / year-wrapping / wrapping inside one month, 12 timesteps, leap) and '
@@ -86,7 +123,9 @@ ASSUMPTIONS = [
     'CPython datetime is the reference calendar of the oracle',
     '/repo carries fixes/C03_1..C03_5 (on a tree without them the check reports the violation); '
     'fixes/C03_6 (immutable continuous group_by_month) is proposed, until it is committed the defect is '
-    'reported as KNOWN-FINDING C03-immutable-continuous-group-by-month',
+    'reported as KNOWN-FINDING C03-immutable-continuous-group-by-month (committed since: 42b506d); '
+    'fixes/C03_7 (immutable continuous group_by_month over a month visited twice) is proposed, until it is '
+    'committed the defect is reported as KNOWN-FINDING C03-immutable-continuous-month-visited-twice',
     'histories: an operation the documented validation refuses but the code accepts puts the object in '
     'the state it reports through values / datetimes / header (the property is then checked on that)',
     'values are finite numbers (no NaN)',
@@ -190,39 +229,202 @@ def _fbits(x):
 # building the real objects
 
 
-def _header(t):
-    from ladybug.header import Header
+# Input shapes (round 4, kinds f / i): every collection is built with its period, its datetimes and its
+# values handed over in one of several equivalent FORMS.  `shapes` is a dict with the keys
+#   ap   ints | strargs | string | string0 | dict | falsy | startend         (how the AnalysisPeriod is made)
+#   v    list | tuple | deque | array | dictvalues | pyint                   (container of the values)
+#   d    list | tuple | gen | iter | map | deque                              (container of the datetimes)
+#   dt   ctor | moy | hoy | string | array | dict                            (how each DateTime is made)
+#   scr  True: the lists handed to the constructor are scrambled afterwards  (the collection holds copies)
+# Absent -> chosen deterministically from the data (`_auto_shapes`), so that a stored input replays alike.
+AP_FORMS = ('ints', 'strargs', 'string', 'string0', 'dict', 'falsy', 'startend')
+V_FORMS = ('list', 'tuple', 'deque', 'array', 'dictvalues', 'pyint')
+D_FORMS = ('list', 'tuple', 'gen', 'iter', 'map', 'deque')
+DT_FORMS = ('ctor', 'moy', 'hoy', 'string', 'array', 'dict')
+MONTH_ABBR = ('Jan', 'Feb', 'Mar', 'Apr', 'May', 'Jun', 'Jul', 'Aug', 'Sep', 'Oct', 'Nov', 'Dec')
+PLAIN_SHAPES = {'ap': 'ints', 'v': 'list', 'd': 'list', 'dt': 'ctor', 'scr': False}
+SHAPE_COUNTS = {}
+
+
+def _auto_shapes(*facts):
+    """Deterministic pick of the forms from the facts of an input (a third stays plain)."""
+    import zlib
+    h = zlib.crc32(repr(facts).encode('utf-8'))
+    if h % 3 == 0:
+        return dict(PLAIN_SHAPES)
+    h //= 3
+    sh = {}
+    for key, forms in (('ap', AP_FORMS), ('v', V_FORMS), ('d', D_FORMS), ('dt', DT_FORMS)):
+        sh[key] = forms[h % len(forms)]
+        h //= len(forms)
+    sh['scr'] = h % 2 == 0
+    return sh
+
+
+def _shape_note(sh):
+    for k in ('ap', 'v', 'd', 'dt'):
+        key = 'shape:%s:%s' % (k, sh.get(k, PLAIN_SHAPES[k]))
+        SHAPE_COUNTS[key] = SHAPE_COUNTS.get(key, 0) + 1
+    if sh.get('scr'):
+        SHAPE_COUNTS['shape:arguments-scrambled-after-construction'] = \
+            SHAPE_COUNTS.get('shape:arguments-scrambled-after-construction', 0) + 1
+
+
+def _period_ok(t):
+    try:
+        sm, sd, sh, em, ed, eh, ts, leap = t
+        return all(isinstance(x, int) and not isinstance(x, bool) for x in t[:7]) and ts in VALID_TS and \
+            0 <= sh <= 23 and 0 <= eh <= 23 and _valid_t(t)
+    except Exception:    # noqa: BLE001
+        return False
+
+
+def _period(t, form='ints'):
+    """The AnalysisPeriod of the tuple t, made in the given form (all forms mean the same period)."""
     from ladybug.analysisperiod import AnalysisPeriod
+    sm, sd, sh, em, ed, eh, ts, leap = t
+    if form == 'ints' or not _period_ok(t):
+        return AnalysisPeriod(*t)
+    if form == 'strargs':
+        return AnalysisPeriod(str(sm), str(sd), str(sh), str(em), str(ed), str(eh), ts, leap)
+    if form in ('string', 'string0'):
+        if form == 'string':
+            text = '%d/%d to %d/%d between %d and %d @%d' % (sm, sd, em, ed, sh, eh, ts) + ('*' if leap else '')
+        else:                               # blanks around everything, upper case, zero-padded fields
+            text = ' %02d/%d To %d/%02d  between %02d and %d @%d%s ' % (sm, sd, em, ed, sh, eh, ts, '*' if leap else '')
+        return AnalysisPeriod.from_string(text)
+    if form == 'dict':
+        return AnalysisPeriod.from_dict({'st_month': sm, 'st_day': sd, 'st_hour': sh, 'end_month': em,
+                                         'end_day': ed, 'end_hour': eh, 'timestep': ts, 'is_leap_year': leap})
+    if form == 'falsy':                     # documented defaults given as None / 0
+        return AnalysisPeriod(sm if sm != 1 else None, sd if sd != 1 else 0, sh if sh != 0 else None,
+                              em if em != 12 else None, ed if ed != 31 else 0, eh if eh != 23 else None,
+                              ts if ts != 1 else 0, leap or None)
+    if form == 'startend':
+        from ladybug.dt import DateTime
+        return AnalysisPeriod.from_start_end_datetime(DateTime(sm, sd, sh, 0, leap), DateTime(em, ed, eh, 0, leap), ts)
+    raise ValueError('unknown period form %r' % (form,))
+
+
+def _header(t, form='ints'):
+    from ladybug.header import Header
     from ladybug.datatype.temperature import Temperature
-    return Header(Temperature(), 'C', AnalysisPeriod(*t))
+    return Header(Temperature(), 'C', _period(t, form))
 
 
-def _cont(t, values=None):
-    from ladybug.datacollection import HourlyContinuousCollection
-    h = _header(t)
-    if values is None:
-        values = list(range(len(ref_moys(t))))
-    return HourlyContinuousCollection(h, values)
-
-
-def _disc(t, dleap, moys, values=None):
-    from ladybug.datacollection import HourlyDiscontinuousCollection
+def _datetime(leap, moy, form='ctor'):
     from ladybug.dt import DateTime
-    h = _header(t)
-    dts = []
-    for m in moys:
-        r = _ref_dt(dleap, m)
-        dts.append(DateTime(r.month, r.day, r.hour, r.minute, dleap))
+    r = _ref_dt(leap, moy)
+    if form == 'moy':
+        return DateTime.from_moy(moy, leap)
+    if form == 'hoy':
+        return DateTime.from_hoy(moy / 60.0, leap)
+    if form == 'string':
+        return DateTime.from_date_time_string('%d %s %02d:%02d' % (r.day, MONTH_ABBR[r.month - 1], r.hour, r.minute), leap)
+    if form == 'array':
+        return DateTime.from_array((r.month, r.day, r.hour, r.minute, leap))
+    if form == 'dict':
+        return DateTime.from_dict({'month': r.month, 'day': r.day, 'hour': r.hour, 'minute': r.minute,
+                                   'leap_year': leap})
+    return DateTime(r.month, r.day, r.hour, r.minute, leap)
+
+
+def _container(items, form):
+    """-> (object handed to the constructor, list to scramble afterwards or None)."""
+    import collections
+    if form == 'tuple':
+        return tuple(items), None
+    if form == 'deque':
+        return collections.deque(items), None
+    if form == 'gen':
+        return (x for x in items), None
+    if form == 'iter':
+        return iter(list(items)), None
+    if form == 'map':
+        return map(lambda x: x, list(items)), None
+    if form == 'array':
+        import array
+        if all(isinstance(x, float) for x in items):
+            return array.array('d', items), None
+    if form == 'dictvalues':
+        return dict(enumerate(items)).values(), None
+    if form == 'pyint':
+        items = [int(x) if isinstance(x, float) and x == int(x) and abs(x) < 2 ** 53 else x for x in items]
+    lst = list(items)
+    return lst, lst
+
+
+def _scramble_list(lst):
+    """Edit, in place, a list that was handed to the code under test (it must have taken a copy)."""
+    if lst is None:
+        return
+    lst.reverse()
+    for i in range(len(lst)):
+        if isinstance(lst[i], (int, float)) and not isinstance(lst[i], bool):
+            lst[i] = lst[i] + 1000003.0
+    lst.append(lst[0] if lst else 0.0)
+
+
+def _make(kind, t, stamps, values, imm=False, dleap=None, shapes=None):
+    """Build one real collection.  kind: cont | disc | daily | monthly | mph; stamps: minutes of the year (disc),
+    day numbers (daily), months (monthly), [month, hour, minute] (mph).  Nothing but construction happens here."""
+    from ladybug import datacollection as dc, datacollectionimmutable as di
+    t = tuple(t)
+    sh = dict(PLAIN_SHAPES)
+    sh.update(shapes if shapes is not None else
+              _auto_shapes(kind, t, imm, len(values), list(stamps[:3]) if stamps else None, values[:2]))
+    _shape_note(sh)
+    h = _header(t, sh['ap'])
+    vobj, vlist = _container(values, sh['v'])
+    if kind == 'cont':
+        c = (di.HourlyContinuousCollectionImmutable if imm else dc.HourlyContinuousCollection)(h, vobj)
+        if sh['scr']:
+            _scramble_list(vlist)
+        return c
+    if kind == 'disc':
+        dl = t[7] if dleap is None else dleap
+        items = [_datetime(dl, m, sh['dt']) for m in stamps]
+        cls = di.HourlyDiscontinuousCollectionImmutable if imm else dc.HourlyDiscontinuousCollection
+    elif kind == 'daily':
+        items = list(stamps)
+        cls = di.DailyCollectionImmutable if imm else dc.DailyCollection
+    elif kind == 'monthly':
+        items = list(stamps)
+        cls = di.MonthlyCollectionImmutable if imm else dc.MonthlyCollection
+    elif kind == 'mph':
+        items = [tuple(k) for k in stamps]
+        cls = di.MonthlyPerHourCollectionImmutable if imm else dc.MonthlyPerHourCollection
+    else:
+        raise ValueError('unknown kind %r' % (kind,))
+    dobj, dlist = _container(items, sh['d'])
+    c = cls(h, vobj, dobj)
+    if sh['scr']:
+        _scramble_list(vlist)
+        if dlist is not None:
+            dlist.reverse()
+            dlist.append(dlist[0])
+    return c
+
+
+def _cont(t, values=None, imm=False, shapes=None):
+    if values is None:
+        try:
+            values = list(range(len(ref_moys(t))))
+        except ValueError:
+            values = [0]
+    return _make('cont', t, None, values, imm, None, shapes)
+
+
+def _disc(t, dleap, moys, values=None, imm=False, shapes=None):
     if values is None:
         values = list(range(len(moys)))
-    return HourlyDiscontinuousCollection(h, values, dts)
+    return _make('disc', t, moys, values, imm, dleap, shapes)
 
 
-def _daily(t, doys, values=None):
-    from ladybug.datacollection import DailyCollection
+def _daily(t, doys, values=None, imm=False, shapes=None):
     if values is None:
         values = list(range(len(doys)))
-    return DailyCollection(_header(t), values, doys)
+    return _make('daily', t, doys, values, imm, None, shapes)
 
 
 # ---------------------------------------------------------------------------------------------
@@ -354,15 +556,46 @@ def _gen_disc(rng, cap=3000):
     return t, dleap, moys, tag
 
 
+INEXACT_KINDS = ('float', 'tiny', 'huge')
+
+
 def _gen_values(rng, n, kind=None):
-    """Value lists: 'int' (exact in floats), 'dyadic', 'ties', 'float'."""
-    kind = kind or rng.choice(['int', 'int', 'dyadic', 'ties', 'float'])
+    """Value lists: 'int' (exact in floats), 'dyadic', 'ties', 'float'; round 4: 'tiny' (1e-12 and below),
+    'huge' (1e15..1e16), 'zeros' (whole days / months of 0.0, or nothing but zeros), 'cancel' (x, -x pairs:
+    totals and averages of 0 with data present), 'half' (values on .5: medians and percentiles on a half)."""
+    kind = kind or rng.choice(['int', 'int', 'int', 'dyadic', 'ties', 'float', 'float', 'tiny', 'huge', 'zeros',
+                               'cancel', 'half'])
     if kind == 'int':
         vals = [float(rng.randrange(-50, 1000)) for _ in range(n)]
     elif kind == 'dyadic':
         vals = [rng.randrange(-4000, 4000) / 8.0 for _ in range(n)]
     elif kind == 'ties':
         vals = [float(rng.randrange(0, 4)) for _ in range(n)]
+    elif kind == 'tiny':
+        sc = rng.choice([1e-12, 1e-12, 1e-15, 1e-200])
+        vals = [rng.uniform(-4.0, 6.0) * sc for _ in range(n)]
+    elif kind == 'huge':
+        vals = [float(rng.randrange(-2 ** 50, 2 ** 53)) for _ in range(n)]
+    elif kind == 'zeros':
+        vals = [float(rng.randrange(-50, 1000)) for _ in range(n)]
+        if rng.random() < 0.3:
+            vals = [0.0] * n
+        else:
+            for _ in range(rng.randrange(1, 6)):
+                ln = rng.choice([1, 24, 48, 60, 720, 744, 1440, n])
+                i = rng.randrange(0, n)
+                i -= i % rng.choice([1, 24, 24, 48])
+                for j in range(i, min(n, i + ln)):
+                    vals[j] = 0.0
+    elif kind == 'cancel':
+        vals = []
+        while len(vals) < n:
+            x = float(rng.randrange(1, 500))
+            run = rng.choice([1, 12, 24])
+            vals += [x] * run + [-x] * run
+        vals = vals[:n]
+    elif kind == 'half':
+        vals = [rng.randrange(-20, 200) + 0.5 for _ in range(n)]
     else:
         vals = [rng.uniform(-40.0, 60.0) for _ in range(n)]
     return kind, vals
@@ -421,14 +654,27 @@ def _parse_op(line):
     return ts, keys, vals
 
 
-def _close(model_fr, impl, exact):
+EPS = 2.3e-16
+
+
+def _scale(vals):
+    """(largest magnitude, sum of magnitudes) of the data a statistic is computed from."""
+    mags = [abs(float(v)) for v in vals]
+    return (max(mags) if mags else 0.0), math.fsum(mags)
+
+
+def _close(model_fr, impl, exact, scale=None):
+    """Model (exact rational) vs code (float).  Not exact: float noise relative to the DATA (`scale` =
+    _scale(values of the case)), never an absolute allowance - values of 1e-12 are compared as sharply as 1e+3."""
     if isinstance(impl, bool) or not isinstance(impl, (int, float)):
         return False
     if isinstance(impl, float) and not math.isfinite(impl):
         return False
     if exact:
         return _fbits(float(model_fr)) == _fbits(impl) or float(model_fr) == impl
-    return abs(float(model_fr) - impl) <= 1e-9 * max(1.0, abs(impl))
+    if scale is None:
+        return abs(float(model_fr) - impl) <= 1e-9 * max(1.0, abs(impl))
+    return abs(float(model_fr) - impl) <= 1e-9 * max(scale[0], abs(impl)) + 1e-13 * scale[1]
 
 
 def _compare_ops(ctx, name, cases, line_fn, impl_fn):
@@ -449,8 +695,9 @@ def _compare_ops(ctx, name, cases, line_fn, impl_fn):
             ok = pm == io
             ctx.count('err_results')
         else:
+            sc = _scale(c.get('vals') or [1.0])
             ok = pm[0] == io[0] and pm[1] == io[1] and len(pm[2]) == len(io[2]) and \
-                all(_close(a, b, c['exact']) for a, b in zip(pm[2], io[2]))
+                all(_close(a, b, c['exact'], sc) for a, b in zip(pm[2], io[2]))
         if not ok:
             ctx.disagree(name, {k: v for k, v in c.items() if k != 'vals'} | {'nvals': len(c.get('vals', []))},
                          mo[:600], (io if isinstance(io, str) else repr(io)[:600]))
@@ -459,7 +706,7 @@ def _compare_ops(ctx, name, cases, line_fn, impl_fn):
 
 
 def _exactness(kind, stat, pexact):
-    if kind == 'float':
+    if kind in INEXACT_KINDS:
         return False
     if stat == 'percentile':
         return pexact
@@ -497,13 +744,7 @@ def correspondence(ctx):
 
     def cont_impl(c):
         by, t = c
-        from ladybug.datacollection import HourlyContinuousCollection
-        h = _header(t)
-        try:
-            n = len(ref_moys(t))
-        except ValueError:
-            n = 1
-        d = getattr(HourlyContinuousCollection(h, list(range(n))), GROUP_FN[by])()
+        d = getattr(_cont(t), GROUP_FN[by])()
         return _show_dict_mph(d) if by == 'mph' else _show_dict_nat(d)
 
     compare_batch(ctx, 'cont_group', cases, lambda c: 'cont_%s %s' % (c[0], _ap_tokens(c[1])), cont_impl,
@@ -630,7 +871,8 @@ def correspondence(ctx):
             p, pexact = rng.choice([-0.5, 100.25, 1000]), True
         cnt = rng.choice([1, n, max(1, n // 2), rng.randrange(1, n + 1), 0, n + 1, -1]) if rng.random() < 0.2 \
             else rng.randrange(1, n + 1)
-        scases.append({'vals': vals, 'p': p, 'count': cnt, 'exact': kind != 'float', 'pexact': pexact and kind != 'float'})
+        scases.append({'vals': vals, 'p': p, 'count': cnt, 'exact': kind not in INEXACT_KINDS,
+                       'pexact': pexact and kind not in INEXACT_KINDS})
         ctx.count('stats:values:' + kind)
         ctx.count('stats:n:%s' % ('1' if n == 1 else '2-9' if n < 10 else '10+'))
 
@@ -650,7 +892,7 @@ def correspondence(ctx):
             ctx.case((name, line_fn(c)[:2000]), nontrivial=not isinstance(io, str))
             if mo.startswith('ok ') and not isinstance(io, str):
                 mv = [Fraction(x) for x in mo[3:].split()]
-                ok = len(mv) == len(io) and all(_close(a, b, c[exact_key]) for a, b in zip(mv, io))
+                ok = len(mv) == len(io) and all(_close(a, b, c[exact_key], _scale(c['vals'])) for a, b in zip(mv, io))
             else:
                 ok = mo == io
             if not ok:
@@ -685,6 +927,7 @@ def correspondence(ctx):
 
     # ---- histories on one object: object state machine of the model vs the real classes, step by step
     _corr_histories(ctx)
+    _flush_shape_counts(ctx)
 
 
 # ---------------------------------------------------------------------------------------------
@@ -725,20 +968,56 @@ def _stat_ref(stat, p, vals):
     return sum(fr) / len(fr) if stat == 'average' else sum(fr)
 
 
+def _result_period_wrong(r, t, iv):
+    """The header period of a statistic per interval: the dates, hour window and kind of year of the source,
+    timestep 1 for daily / monthly results (its consumers list their days / months from it)."""
+    ap = r.header.analysis_period
+    got = (ap.st_month, ap.st_day, ap.st_hour, ap.end_month, ap.end_day, ap.end_hour, ap.timestep, bool(ap.is_leap_year))
+    want = tuple(t[:6]) + ((1 if iv in ('daily', 'monthly') else t[6]), bool(t[7]))
+    if got == want:
+        return None
+    if got[7] != want[7]:
+        return 'result-leap-flag', want, got
+    if got[6] != want[6]:
+        return 'timestep', want, got
+    return 'result-period', want, got
+
+
+def _tol(stat, group):
+    """Float noise a correct implementation may show for `stat` of `group` (naive summation, the two
+    products of the interpolation), RELATIVE TO THE DATA: no absolute allowance (kind h)."""
+    n = len(group)
+    big, tot = _scale(group)
+    if stat == 'total':
+        return 4 * EPS * max(n, 16) * tot
+    if stat == 'average':
+        return 4 * EPS * max(n, 16) * big
+    return (8 * n + 64) * EPS * big          # percentile / median / an order statistic
+
+
+def _stat_ok(stat, got, want, group):
+    if isinstance(got, bool) or not isinstance(got, (int, float)) or not math.isfinite(got):
+        return False
+    return abs(float(want) - got) <= _tol(stat, group)
+
+
 def _build(inp):
     t = tuple(inp['t'])
+    imm, shapes = bool(inp.get('imm')), inp.get('shapes')
     if inp['coll'] == 'cont':
         moys = ref_moys(t)
         vals = inp.get('vals') or list(range(len(moys)))
-        return _cont(t, vals), t[7], moys, vals
+        return _cont(t, vals, imm, shapes), t[7], moys, vals
     moys = inp['moys']
     vals = inp.get('vals') or list(range(len(moys)))
-    return _disc(t, inp['dleap'], moys, vals), inp['dleap'], moys, vals
+    return _disc(t, inp['dleap'], moys, vals, imm, shapes), inp['dleap'], moys, vals
 
 
 def _sig(inp, **kw):
     t = tuple(inp['t'])
     s = {'coll': inp['coll'], 'span': _classify(t), 'leap': bool(t[7]), 'subhourly': t[6] != 1}
+    if inp.get('imm'):
+        s['imm'] = True
     s.update(kw)
     return s
 
@@ -751,149 +1030,324 @@ def _chrono_first(keys):
     return out
 
 
+ORDER_CLASSES = ('daily', 'disc', 'cont', 'monthly', 'mph')
+
+
+def _order_class_for(cls, n):
+    """The class a value list of length n can be held by (fallbacks keep the request meaningful)."""
+    if cls == 'monthly' and n > 12:
+        cls = 'daily'
+    if cls == 'mph' and n > 288:
+        cls = 'daily'
+    if cls == 'cont' and (n % 24 or n > 8760):
+        cls = 'disc'
+    if cls == 'daily' and n > 366:
+        cls = 'disc'
+    return cls
+
+
+def _order_coll(inp):
+    """The collection of an `order_stats` input: any of the five classes, mutable or immutable twin."""
+    vals = inp['vals']
+    n = len(vals)
+    cls = _order_class_for(inp.get('cls', 'daily'), n)
+    imm, shapes = bool(inp.get('imm')), inp.get('shapes')
+    if cls == 'daily':
+        return _make('daily', (1, 1, 0, 12, 31, 23, 1, True), list(range(1, n + 1)), vals, imm, None, shapes), cls
+    if cls == 'monthly':
+        return _make('monthly', (1, 1, 0, 12, 31, 23, 1, False), list(range(1, n + 1)), vals, imm, None, shapes), cls
+    if cls == 'mph':
+        return _make('mph', (1, 1, 0, 12, 31, 23, 1, False), [(i // 24 + 1, i % 24, 0) for i in range(n)], vals,
+                     imm, None, shapes), cls
+    if cls == 'cont':
+        d = date(2017, 1, 1) + timedelta(days=n // 24 - 1)
+        return _make('cont', (1, 1, 0, d.month, d.day, 23, 1, False), None, vals, imm, None, shapes), cls
+    return _make('disc', (1, 1, 0, 12, 31, 23, 1, False), [i * 60 for i in range(n)], vals, imm, False, shapes), cls
+
+
+def _scramble_result(x):
+    """Edit an answer of the code under test in place (a later answer must not notice); -> True if edited."""
+    try:
+        if isinstance(x, list):
+            x.reverse()
+            x.append(-987654.25)
+            if len(x) > 2:
+                del x[1]
+            return True
+        if isinstance(x, dict):
+            for k in list(x.keys()):
+                _scramble_result(x[k])
+            ks = list(x.keys())
+            if ks:
+                x[ks[0]] = [-987654.25]
+                if len(ks) > 1:
+                    del x[ks[-1]]
+            return True
+    except Exception:    # noqa: BLE001
+        pass
+    return False
+
+
 def _check_plain(op, inp):
     if op == 'partition':
         by = inp['by']
-        coll, dleap, moys, _ = _build(inp)
+        coll, dleap, moys, vals = _build(inp)
         sig = _sig(inp, by=by)
         exp = _expected_groups(by, dleap, moys)
-        try:
-            got = getattr(coll, GROUP_FN[by])()
-        except Exception as e:
-            return {'required': 'groups of every value by its own datetime', 'observed': 'raises %s: %s' %
-                    (type(e).__name__, e), 'sig': dict(sig, fail='raises ' + type(e).__name__)}
-        nonempty = {k: list(v) for k, v in got.items() if len(v)}
-        if nonempty != exp:
-            for k in sorted(set(nonempty) | set(exp), key=str):
-                if nonempty.get(k) != exp.get(k):
-                    a, b = exp.get(k, []), nonempty.get(k, [])
-                    fail = 'too-long' if len(b) > len(a) else 'too-short' if len(b) < len(a) else 'other-values'
-                    return {'required': 'group %s = ids %s' % (k, _runs(a)), 'observed': 'ids %s' % _runs(b),
-                            'sig': dict(sig, fail=fail)}
-        allv = sorted(x for v in got.values() for x in v)
-        if allv != list(range(len(moys))):
-            return {'required': 'each value exactly once', 'observed': 'multiset differs',
-                    'sig': dict(sig, fail='not-a-partition')}
+        ids = 'vals' not in inp or not inp['vals']
+        for ask in (1, 2):                   # asked again after the first answer was edited in place
+            if ask == 2:
+                sig = dict(sig, ask=2)
+            try:
+                got = getattr(coll, GROUP_FN[by])()
+            except Exception as e:
+                return {'required': 'groups of every value by its own datetime', 'observed': 'raises %s: %s' %
+                        (type(e).__name__, e), 'sig': dict(sig, fail='raises ' + type(e).__name__)}
+            nonempty = {k: list(v) for k, v in got.items() if len(v)}
+            want = exp if ids else {k: [vals[i] for i in ix] for k, ix in exp.items()}
+            if nonempty != want:
+                for k in sorted(set(nonempty) | set(want), key=str):
+                    if nonempty.get(k) != want.get(k):
+                        a, b = want.get(k, []), nonempty.get(k, [])
+                        fail = 'too-long' if len(b) > len(a) else 'too-short' if len(b) < len(a) else 'other-values'
+                        return {'required': 'group %s = %s' % (k, ('ids ' + _runs(a)) if ids else a[:12]),
+                                'observed': ('ids ' + _runs(b)) if ids and all(isinstance(x, int) for x in b) else b[:12],
+                                'sig': dict(sig, fail=fail)}
+            if ids:
+                allv = sorted(x for v in got.values() for x in v)
+                if allv != list(range(len(moys))):
+                    return {'required': 'each value exactly once', 'observed': 'multiset differs',
+                            'sig': dict(sig, fail='not-a-partition')}
+            if len(moys) > 6000 and len(moys) % 3:
+                break                        # (big inputs: the second ask on a third of them only)
+            if not _scramble_result(got):
+                break
+        if list(coll.values) != list(vals):
+            return {'required': 'grouping leaves the values as they are', 'observed': list(coll.values)[:12],
+                    'sig': dict(sig, fail='values-changed-by-reads')}
         return None
     if op == 'cont_vs_disc':
+        # siblings that hold the same data must answer alike (kind e): the continuous class, its immutable
+        # twin, its to_discontinuous() image and an independently built immutable discontinuous collection
         t = tuple(inp['t'])
-        c = _cont(t)
-        d = c.to_discontinuous()
+        shapes = inp.get('shapes')
+        c = _cont(t, None, False, shapes)
         sig = _sig(dict(inp, coll='cont'))
-        for by, fn in GROUP_FN.items():
-            a, b = list(getattr(c, fn)().items()), None
+        n = len(ref_moys(t))
+        sibs = [('continuous immutable', lambda: _cont(t, None, True, shapes)),
+                ('to_discontinuous()', lambda: c.to_discontinuous()),
+                ('discontinuous immutable', lambda: _disc(t, t[7], ref_moys(t), list(range(n)), True, shapes))]
+        norm = lambda dct: [(k, list(v)) for k, v in dct.items()]   # noqa: E731
+        base = {}
+        for sname, mk in sibs:
             try:
-                b = list(getattr(d, fn)().items())
-            except Exception as e:
-                b = 'raises %s' % type(e).__name__
-            if a != b:
-                return {'required': 'continuous and discontinuous give the same groups (%s)' % by,
-                        'observed': 'they differ', 'sig': dict(sig, by=by, fail='cont!=disc')}
-        for iv in ('daily', 'monthly', 'monthlyperhour'):
-            for stat, p in (('average', 0), ('total', 0), ('percentile', 75)):
-                x, y = _op_method(c, iv, stat, p), _op_method(d, iv, stat, p)
-                if x.values != y.values or x.datetimes != y.datetimes:
-                    return {'required': 'same %s %s' % (stat, iv), 'observed': 'differ',
-                            'sig': dict(sig, by=iv, fail='cont!=disc stats')}
+                d = mk()
+            except Exception as e:           # noqa: BLE001
+                return {'required': '%s can be built' % sname, 'observed': 'raises %s: %s' % (type(e).__name__, e),
+                        'sig': dict(sig, fail='sibling-raises', sibling=sname)}
+            for by, fn in GROUP_FN.items():
+                if by not in base:
+                    base[by] = norm(getattr(c, fn)())
+                try:
+                    b = norm(getattr(d, fn)())
+                except Exception as e:
+                    return {'required': '%s answers group_by_%s' % (sname, by), 'observed': 'raises %s: %s' %
+                            (type(e).__name__, str(e)[:100]),
+                            'sig': dict(sig, by=by, fail='raises ' + type(e).__name__, sibling=sname,
+                                        imm='immutable' in sname)}
+                if base[by] != b:
+                    return {'required': 'continuous and %s give the same groups (%s)' % (sname, by),
+                            'observed': 'they differ', 'sig': dict(sig, by=by, fail='cont!=disc', sibling=sname)}
+            for iv in ('daily', 'monthly', 'monthlyperhour'):
+                for stat, p in (('average', 0), ('total', 0), ('percentile', 75)):
+                    if (iv, stat) not in base:
+                        x = _op_method(c, iv, stat, p)
+                        base[(iv, stat)] = (list(x.values), list(x.datetimes))
+                    try:
+                        y = _op_method(d, iv, stat, p)
+                        yy = (list(y.values), list(y.datetimes))
+                    except Exception as e:   # noqa: BLE001
+                        return {'required': '%s answers %s %s' % (sname, stat, iv), 'observed': 'raises %s: %s' %
+                                (type(e).__name__, str(e)[:100]),
+                                'sig': dict(sig, by=iv, fail='raises ' + type(e).__name__, sibling=sname,
+                                            imm='immutable' in sname)}
+                    if base[(iv, stat)] != yy:
+                        return {'required': 'same %s %s from continuous and %s' % (stat, iv, sname), 'observed': 'differ',
+                                'sig': dict(sig, by=iv, fail='cont!=disc stats', sibling=sname)}
+            for name in ('median', 'average', 'total', 'min', 'max'):
+                if getattr(c, name) != getattr(d, name):
+                    return {'required': 'same %s from continuous and %s' % (name, sname),
+                            'observed': (getattr(c, name), getattr(d, name)),
+                            'sig': dict(sig, fail='cont!=disc ' + name, sibling=sname)}
+            if c.highest_values(min(3, n)) != d.highest_values(min(3, n)) or \
+                    c.lowest_values(min(3, n)) != d.lowest_values(min(3, n)) or c.percentile(37.5) != d.percentile(37.5):
+                return {'required': 'same order statistics from continuous and %s' % sname, 'observed': 'differ',
+                        'sig': dict(sig, fail='cont!=disc order-statistics', sibling=sname)}
         return None
     if op == 'stats_of_groups':
         iv, stat, p = inp['iv'], inp['stat'], inp['p']
         by = {'daily': 'day', 'monthly': 'month', 'monthlyperhour': 'mph'}[iv]
         coll, dleap, moys, vals = _build(inp)
-        sig = _sig(inp, by=iv, stat=stat)
+        sig0 = _sig(inp, by=iv, stat=stat)
         exp = _expected_groups(by, dleap, moys)
-        r = _op_method(coll, iv, stat, p)
-        keys = list(r.datetimes)
-        for k, v in zip(keys, r.values):
-            if k not in exp:
-                return {'required': 'only non-empty groups reported', 'observed': 'key %s' % (k,),
-                        'sig': dict(sig, fail='phantom-group')}
-            want = _stat_ref(stat, p, [vals[i] for i in exp[k]])
-            if abs(float(want) - v) > 1e-9 * max(1.0, abs(float(want))):
-                return {'required': '%s of group %s = %s' % (stat, k, float(want)), 'observed': v,
-                        'sig': dict(sig, fail='wrong-statistic')}
-        if inp.get('inside', True):
-            first = _chrono_first(_key_of(by, _ref_dt(dleap, m)) for m in ref_moys(tuple(inp['t']))
-                                  if True)
-            want_keys = [k for k in first if k in exp]
-            got_keys = _chrono_first(keys)
-            if by == 'mph':
-                # the listing is month by month (period order), times of day ascending inside a month
-                def canon(ks):
-                    months = _chrono_first(k[0] for k in ks)
-                    return [k for mo in months for k in sorted(x for x in ks if x[0] == mo)]
-                want_keys, got_keys = canon(want_keys), (got_keys if got_keys == canon(got_keys) else got_keys + ['unordered'])
-            if got_keys != want_keys:
-                return {'required': 'groups in period order: %s' % (want_keys[:20],), 'observed': keys[:20],
-                        'sig': dict(sig, fail='keys')}
-        if iv in ('daily', 'monthly') and r.header.analysis_period.timestep != 1:
-            return {'required': 'timestep 1', 'observed': r.header.analysis_period.timestep,
-                    'sig': dict(sig, fail='timestep')}
-        return None
+
+        def judge(r, sig):
+            keys = list(r.datetimes)
+            if len(keys) != len(r.values):
+                return {'required': 'one value per key', 'observed': (len(keys), len(r.values)), 'sig': dict(sig, fail='keys')}
+            for k, v in zip(keys, r.values):
+                if k not in exp:
+                    return {'required': 'only non-empty groups reported', 'observed': 'key %s' % (k,),
+                            'sig': dict(sig, fail='phantom-group')}
+                grp = [vals[i] for i in exp[k]]
+                want = _stat_ref(stat, p, grp)
+                if not _stat_ok(stat, v, want, grp):
+                    return {'required': '%s of group %s = %r' % (stat, k, float(want)), 'observed': v,
+                            'sig': dict(sig, fail='wrong-statistic')}
+            if inp.get('inside', True):
+                first = _chrono_first(_key_of(by, _ref_dt(dleap, m)) for m in ref_moys(tuple(inp['t'])))
+                want_keys = [k for k in first if k in exp]
+                got_keys = _chrono_first(keys)
+                if by == 'mph':
+                    # the listing is month by month (period order), times of day ascending inside a month
+                    def canon(ks):
+                        months = _chrono_first(k[0] for k in ks)
+                        return [k for mo in months for k in sorted(x for x in ks if x[0] == mo)]
+                    want_keys, got_keys = canon(want_keys), (got_keys if got_keys == canon(got_keys) else got_keys + ['unordered'])
+                if got_keys != want_keys:
+                    return {'required': 'groups in period order: %s' % (want_keys[:20],), 'observed': keys[:20],
+                            'sig': dict(sig, fail='keys')}
+            if iv in ('daily', 'monthly') and r.header.analysis_period.timestep != 1:
+                return {'required': 'timestep 1', 'observed': r.header.analysis_period.timestep,
+                        'sig': dict(sig, fail='timestep')}
+            bad = _result_period_wrong(r, tuple(inp['t']), iv)
+            if bad:
+                # a day number / month names a date only together with the kind of year; consumers of the
+                # result list their days / months from its header period
+                return {'required': 'the result keeps period and kind of year: %s' % (bad[1],),
+                        'observed': bad[2], 'sig': dict(sig, fail=bad[0])}
+            return None
+
+        try:
+            r = _op_method(coll, iv, stat, p)
+        except Exception as e:               # noqa: BLE001
+            return {'required': '%s %s answers' % (stat, iv), 'observed': 'raises %s: %s' % (type(e).__name__, str(e)[:100]),
+                    'sig': dict(sig0, fail='raises ' + type(e).__name__)}
+        res = judge(r, sig0)
+        if res:
+            return res
+        if len(vals) > 5000 and len(vals) % 3:
+            return None                      # (the two extra calls are made on two thirds of the big inputs only)
+        # keep the first answer, ask another question, look at the first answer again (kind f)
+        snap = (list(r.values), list(r.datetimes))
+        _op_method(coll, iv, 'average' if stat == 'total' else 'total', 0)
+        if (list(r.values), list(r.datetimes)) != snap:
+            return {'required': 'an answer already given is not changed by a later call', 'observed': list(r.values)[:12],
+                    'sig': dict(sig0, fail='earlier-answer-changed')}
+        # edit the first answer in place, ask the same question again
+        try:
+            r.values = [float(i) - 987654.25 for i in range(len(r.values))]
+            r.header.metadata['edited'] = 'by the caller'
+        except Exception:                    # noqa: BLE001
+            pass
+        res = judge(_op_method(coll, iv, stat, p), dict(sig0, ask=2))
+        if res is None and list(coll.values) != list(vals):
+            res = {'required': 'statistics leave the values as they are', 'observed': list(coll.values)[:12],
+                   'sig': dict(sig0, fail='values-changed-by-reads')}
+        return res
     if op == 'daily_month':
         leap, doys = inp['leap'], inp['doys']
         vals = inp.get('vals') or [float(i) for i in range(len(doys))]
-        coll = _daily((1, 1, 0, 12, 31, 23, 1, leap), doys, vals)
+        coll = _daily((1, 1, 0, 12, 31, 23, 1, leap), doys, vals, bool(inp.get('imm')), inp.get('shapes'))
         sig = {'coll': 'daily', 'leap': leap}
+        if inp.get('imm'):
+            sig['imm'] = True
+        if any(a > b for a, b in zip(doys, doys[1:])):
+            sig['unsorted'] = True
         exp = {}
         for i, d in enumerate(doys):
             exp.setdefault((date(_year(leap), 1, 1) + timedelta(days=d - 1)).month, []).append(i)
-        try:
-            got = {k: list(v) for k, v in coll.group_by_month().items() if len(v)}
-        except Exception as e:
-            return {'required': 'months of the days', 'observed': 'raises %s' % type(e).__name__,
-                    'sig': dict(sig, fail='raises ' + type(e).__name__)}
         want = {k: [vals[i] for i in ix] for k, ix in exp.items()}
-        if got != want:
-            return {'required': 'each day in its month', 'observed': 'differs',
-                    'sig': dict(sig, fail='wrong-month')}
-        for stat, p in (('average', 0), ('total', 0), ('percentile', 30)):
+        for ask in (1, 2):                   # asked again after the first answer was edited in place
+            try:
+                raw = coll.group_by_month()
+                got = {k: list(v) for k, v in raw.items() if len(v)}
+            except Exception as e:
+                return {'required': 'months of the days', 'observed': 'raises %s' % type(e).__name__,
+                        'sig': dict(sig, fail='raises ' + type(e).__name__)}
+            if got != want:
+                k = [k for k in sorted(set(got) | set(want)) if got.get(k) != want.get(k)][0]
+                return {'required': 'each day in its month: month %s = %s' % (k, want.get(k, [])[:12]),
+                        'observed': got.get(k, [])[:12], 'sig': dict(sig, fail='wrong-month', ask=ask)}
+            if not _scramble_result(raw):
+                break
+        for stat, p in (('average', 0), ('total', 0), ('percentile', inp.get('p', 30))):
             r = coll.percentile_monthly(p) if stat == 'percentile' else getattr(coll, stat + '_monthly')()
             if list(r.datetimes) != sorted(want):
                 return {'required': sorted(want), 'observed': list(r.datetimes), 'sig': dict(sig, fail='keys')}
             for k, v in zip(r.datetimes, r.values):
                 w = float(_stat_ref(stat, p, want[k]))
-                if abs(w - v) > 1e-9 * max(1.0, abs(w)):
-                    return {'required': w, 'observed': v, 'sig': dict(sig, fail='wrong-statistic', stat=stat)}
+                if not _stat_ok(stat, v, w, want[k]):
+                    return {'required': '%s of month %s = %r' % (stat, k, w), 'observed': v,
+                            'sig': dict(sig, fail='wrong-statistic', stat=stat)}
+            if bool(r.header.analysis_period.is_leap_year) != bool(leap):
+                return {'required': 'the result keeps the kind of year', 'observed': 'leap %s' %
+                        r.header.analysis_period.is_leap_year, 'sig': dict(sig, fail='result-leap-flag')}
+        if list(coll.values) != list(vals) or list(coll.datetimes) != list(doys):
+            return {'required': 'reads leave values and days as they are', 'observed': list(coll.values)[:12],
+                    'sig': dict(sig, fail='values-changed-by-reads')}
         return None
     if op == 'order_stats':
-        vals, p, cnt = inp['vals'], inp['p'], inp['count']
-        from ladybug.datacollection import DailyCollection
-        coll = DailyCollection(_header((1, 1, 0, 12, 31, 23, 1, True)), vals, list(range(1, len(vals) + 1)))
-        tol = lambda w: 1e-9 * max(1.0, abs(float(w)))   # noqa: E731
-        sig = {'coll': 'any'}
+        vals, p = inp['vals'], inp['p']
+        cnt = int(inp['count'])              # the API documents an integer and coerces with int(): 2.0 / '2' mean 2
+        coll, cls = _order_coll(inp)
+        n = len(vals)
+        tolv = _tol('percentile', vals)
+        sig = {'coll': 'any', 'cls': cls, 'imm': bool(inp.get('imm'))}
         w = _textbook_percentile(vals, p)
         g = coll.percentile(p)
-        if abs(float(w) - g) > tol(w):
-            return {'required': 'percentile %s = %s' % (p, float(w)), 'observed': g, 'sig': dict(sig, fail='percentile')}
+        if not _stat_ok('percentile', g, w, vals):
+            return {'required': 'percentile %s = %r' % (p, float(w)), 'observed': g, 'sig': dict(sig, fail='percentile')}
         if coll.percentile(0) != min(vals) or coll.percentile(100) != max(vals):
             return {'required': 'p0=min, p100=max', 'observed': (coll.percentile(0), coll.percentile(100)),
                     'sig': dict(sig, fail='percentile-ends')}
-        if abs(statistics.median(vals) - coll.median) > tol(coll.median) or \
-                abs(coll.percentile(50) - coll.median) > tol(coll.median):
-            return {'required': 'median %s' % statistics.median(vals), 'observed': coll.median,
-                    'sig': dict(sig, fail='median')}
-        if not (min(vals) - tol(g) <= g <= max(vals) + tol(g)):
+        med = float(_textbook_percentile(vals, 50))
+        if not _stat_ok('percentile', coll.median, med, vals) or abs(statistics.median(vals) - coll.median) > tolv \
+                or abs(coll.percentile(50) - coll.median) > tolv:
+            return {'required': 'median %r' % med, 'observed': coll.median, 'sig': dict(sig, fail='median')}
+        if not (min(vals) - tolv <= g <= max(vals) + tolv):
             return {'required': 'min <= percentile <= max', 'observed': g, 'sig': dict(sig, fail='percentile-range')}
         p2 = inp.get('p2', p)
         lo, hi = sorted((p, p2))
-        if coll.percentile(lo) > coll.percentile(hi) + tol(g):
+        if coll.percentile(lo) > coll.percentile(hi) + tolv:
             return {'required': 'monotone in p', 'observed': (coll.percentile(lo), coll.percentile(hi)),
                     'sig': dict(sig, fail='percentile-monotone')}
-        if (coll.min, coll.max) != (min(vals), max(vals)) or coll.bounds != (min(vals), max(vals)):
-            return {'required': 'min/max/bounds', 'observed': coll.bounds, 'sig': dict(sig, fail='minmax')}
+        if (coll.min, coll.max) != (min(vals), max(vals)) or tuple(coll.bounds) != (min(vals), max(vals)):
+            return {'required': 'min/max/bounds %r' % ((min(vals), max(vals)),), 'observed': (coll.min, coll.max, coll.bounds),
+                    'sig': dict(sig, fail='minmax')}
         fr = [Fraction(v) for v in vals]
-        if abs(float(sum(fr)) - coll.total) > tol(coll.total) or \
-                abs(float(sum(fr) / len(fr)) - coll.average) > tol(coll.average):
-            return {'required': 'total/average', 'observed': (coll.total, coll.average), 'sig': dict(sig, fail='total-average')}
+        if not _stat_ok('total', coll.total, float(sum(fr)), vals) or \
+                not _stat_ok('average', coll.average, float(sum(fr) / len(fr)), vals):
+            return {'required': 'total/average %r' % ((float(sum(fr)), float(sum(fr) / len(fr))),),
+                    'observed': (coll.total, coll.average), 'sig': dict(sig, fail='total-average')}
         for meth, rev in (('highest_values', True), ('lowest_values', False)):
-            v, ix = getattr(coll, meth)(cnt)
-            if list(v) != sorted(vals, reverse=rev)[:cnt]:
-                return {'required': 'first %d of the sort' % cnt, 'observed': list(v)[:20],
-                        'sig': dict(sig, fail=meth + '-values')}
-            if len(ix) != cnt or len(set(ix)) != cnt or any(vals[i] != x for i, x in zip(ix, v)):
-                return {'required': 'vals[idx[i]] == values[i], indices distinct', 'observed': list(ix)[:20],
-                        'sig': dict(sig, fail=meth + '-indices')}
+            for ask in (1, 2):               # the second time after the first answer was edited in place
+                try:
+                    v, ix = getattr(coll, meth)(inp['count'])
+                except Exception as e:       # noqa: BLE001
+                    return {'required': '%s(%r) answers' % (meth, inp['count']), 'observed': 'raises %s: %s' %
+                            (type(e).__name__, str(e)[:100]), 'sig': dict(sig, fail=meth + '-raises', ask=ask)}
+                if list(v) != sorted(vals, reverse=rev)[:cnt]:
+                    return {'required': 'first %d of the sort' % cnt, 'observed': list(v)[:20],
+                            'sig': dict(sig, fail=meth + '-values', ask=ask)}
+                if len(ix) != cnt or len(set(ix)) != cnt or any(not (0 <= i < n) or vals[i] != x for i, x in zip(ix, v)):
+                    return {'required': 'vals[idx[i]] == values[i], indices distinct', 'observed': list(ix)[:20],
+                            'sig': dict(sig, fail=meth + '-indices', ask=ask)}
+                _scramble_result(v)
+                _scramble_result(ix)
+        if list(coll.values) != list(vals) or [coll[i] for i in range(n)] != list(vals):
+            return {'required': 'asking for statistics leaves the values as they are', 'observed': list(coll.values)[:20],
+                    'sig': dict(sig, fail='values-changed-by-reads')}
         return None
     raise ValueError('unknown op ' + op)
 
@@ -977,6 +1431,8 @@ class _St(object):
 
 
 _BY_IX = {'day': 0, 'month': 1, 'mph': 2}
+_HELD = []        # answers kept during one history: (what, object, snapshot)
+_STEP = [0]       # index of the step being executed
 _KEYS = {}
 _LISTING = {}
 
@@ -1003,6 +1459,8 @@ def _spec_apply(st, op):
         v = op[1]
         if not isinstance(v, list) or len(v) != n or not v:
             return False
+        if len(op) > 2 and op[2] in ('gen', 'iter', 'map'):
+            return False                     # the setter needs len(): a one-shot iterable is refused
         st.vals = [float(x) for x in v]
         return True
     if name == 'setitem':
@@ -1015,6 +1473,8 @@ def _spec_apply(st, op):
         ts = op[1]
         if st.kind == 'daily' or isinstance(ts, bool) or ts not in VALID_TS:
             return False
+        if st.kind == 'cont' and st.t[6] % ts != 0:
+            return False                     # fix 2b7dc5a: a continuous collection refuses a non-dividing timestep
         step = 60 // ts
         keep = [i for i, m in enumerate(st.moys) if m % step == 0]
         st.moys = [st.moys[i] for i in keep]
@@ -1032,16 +1492,23 @@ def _spec_apply(st, op):
     raise ValueError('unknown mutator %r' % (op,))
 
 
+def _not_a_number(x):
+    return isinstance(x, bool) or not isinstance(x, (int, float))
+
+
 def _read_refused(st, op):
     """Reads whose argument is outside the documented range (the API asserts)."""
     name = op[0]
     n = len(st.vals)
     if name == 'pct':
-        return not (0 <= op[1] <= 100)
+        return _not_a_number(op[1]) or not (0 <= op[1] <= 100)
     if name == 'stat':
-        return op[2] == 'percentile' and not (0 <= op[3] <= 100)
+        return op[2] == 'percentile' and (_not_a_number(op[3]) or not (0 <= op[3] <= 100))
     if name in ('highest', 'lowest'):
-        return not (1 <= op[1] <= n)
+        try:
+            return not (1 <= int(op[1]) <= n)
+        except (TypeError, ValueError):
+            return True
     if name == 'daily_of':
         return (op[1] == 'percentile' and not (0 <= op[2] <= 100)) or \
             (op[3] == 'percentile' and not (0 <= op[4] <= 100))
@@ -1049,31 +1516,22 @@ def _read_refused(st, op):
 
 
 def _mk_real(spec):
-    from ladybug.datacollection import HourlyContinuousCollection, HourlyDiscontinuousCollection, \
-        DailyCollection
-    from ladybug.datacollectionimmutable import HourlyContinuousCollectionImmutable, \
-        HourlyDiscontinuousCollectionImmutable, DailyCollectionImmutable
-    from ladybug.dt import DateTime
-    t = tuple(spec['t'])
     st = _St(spec)
-    h = _header(t)
-    imm = bool(spec.get('imm'))
-    if spec['kind'] == 'cont':
-        return (HourlyContinuousCollectionImmutable if imm else HourlyContinuousCollection)(h, list(st.vals))
-    if spec['kind'] == 'disc':
-        dts = []
-        for m in st.moys:
-            r = _ref_dt(st.dleap, m)
-            dts.append(DateTime(r.month, r.day, r.hour, r.minute, st.dleap))
-        return (HourlyDiscontinuousCollectionImmutable if imm else HourlyDiscontinuousCollection)(
-            h, list(st.vals), dts)
-    return (DailyCollectionImmutable if imm else DailyCollection)(h, list(st.vals), list(st.moys))
+    return _make(spec['kind'], tuple(spec['t']), st.moys if spec['kind'] != 'cont' else None, list(st.vals),
+                 bool(spec.get('imm')), st.dleap, spec.get('shapes'))
 
 
 def _real_apply(c, op):
     name = op[0]
     if name == 'setvals':
-        c.values = list(op[1]) if isinstance(op[1], list) else op[1]
+        if isinstance(op[1], list):
+            obj, lst = _container(op[1], op[2] if len(op) > 2 else 'list')
+            try:
+                c.values = obj
+            finally:
+                _scramble_list(lst)          # the caller goes on using his own list (kind f)
+        else:
+            c.values = op[1]
     elif name == 'setitem':
         c[op[1]] = op[2]
     elif name == 'cull':
@@ -1092,7 +1550,7 @@ def _near(a, b):
     if isinstance(a, bool) or isinstance(b, bool) or not isinstance(a, (int, float)) or \
             not isinstance(b, (int, float)):
         return False
-    return a == b or abs(a - b) <= 1e-9 * max(1.0, abs(b))
+    return a == b or abs(a - b) <= 1e-12 * max(abs(a), abs(b))
 
 
 def _same_vals(a, b):
@@ -1126,7 +1584,7 @@ def _cmp_stats(r, st, by, stat, p, exp, what):
             return {'required': '%s: only groups with data are reported' % what, 'observed': 'key %s' % (k,),
                     'fail': 'phantom-group'}
         want = float(_stat_ref(stat, p, exp[k]))
-        if not _near(v, want):
+        if not _stat_ok(stat, v, want, exp[k]):
             return {'required': '%s: %s of group %s = %r' % (what, stat, k, want), 'observed': v,
                     'fail': 'wrong-statistic'}
     if _chrono_first(keys) != want_keys:
@@ -1142,7 +1600,15 @@ def _read_check(c, st, op):
     n = len(vals)
     if name == 'group':
         by = op[1]
-        return _cmp_groups(getattr(c, _grp_fn(st, by))(), st.groups(by), 'group_by_' + by)
+        got = getattr(c, _grp_fn(st, by))()
+        res = _cmp_groups(got, st.groups(by), 'group_by_' + by)
+        if res is None and _scramble_result(got):
+            # the caller edited the answer in place; the same question again (kind f: no answer is shared)
+            res = _cmp_groups(getattr(c, _grp_fn(st, by))(), st.groups(by),
+                              'group_by_%s asked again after the caller edited the first answer in place' % by)
+            if res:
+                res['fail'] = 'edited-answer-' + res['fail']
+        return res
     if name == 'stat':
         iv, stat, p = op[1], op[2], op[3]
         by = {'daily': 'day', 'monthly': 'month', 'monthlyperhour': 'mph'}[iv]
@@ -1151,16 +1617,32 @@ def _read_check(c, st, op):
         if res is None and st.kind != 'daily' and iv in ('daily', 'monthly') and \
                 r.header.analysis_period.timestep != 1:
             return {'required': 'timestep 1', 'observed': r.header.analysis_period.timestep, 'fail': 'timestep'}
+        if res is None:
+            bad = _result_period_wrong(r, st.t, iv if st.kind != 'daily' else 'of-daily')
+            if bad:
+                return {'required': 'the result keeps period and kind of year: %s' % (bad[1],), 'observed': bad[2],
+                        'fail': bad[0]}
+        if res is None:
+            if len(_HELD) < 6 and _STEP[0] % 2 == 0:
+                # keep this answer; it is looked at again at the end of the history (kind f)
+                _HELD.append(('%s_%s(%s) given at step %d' % (stat, iv, p, _STEP[0]), r,
+                              (list(r.values), list(r.datetimes))))
+            else:
+                try:                         # the caller edits the answer in place
+                    r.values = [float(i) - 987654.25 for i in range(len(r.values))]
+                    r.header.metadata['edited'] = 'by the caller'
+                except Exception:            # noqa: BLE001
+                    pass
         return res
     if name == 'pct':
         w = float(_textbook_percentile(vals, op[1]))
         g = c.percentile(op[1])
-        return None if _near(g, w) else {'required': 'percentile %s = %r' % (op[1], w), 'observed': g,
+        return None if _stat_ok('percentile', g, w, vals) else {'required': 'percentile %s = %r' % (op[1], w), 'observed': g,
                                          'fail': 'percentile'}
     if name == 'median':
         w = float(_textbook_percentile(vals, 50))
         g = c.median
-        return None if _near(g, w) else {'required': 'median %r' % w, 'observed': g, 'fail': 'median'}
+        return None if _stat_ok('percentile', g, w, vals) else {'required': 'median %r' % w, 'observed': g, 'fail': 'median'}
     if name == 'minmax':
         g = (c.min, c.max, tuple(c.bounds))
         w = (min(vals), max(vals), (min(vals), max(vals)))
@@ -1170,18 +1652,22 @@ def _read_check(c, st, op):
         fr = [Fraction(v) for v in vals]
         w = float(sum(fr) / len(fr)) if name == 'avg' else float(sum(fr))
         g = c.average if name == 'avg' else c.total
-        return None if _near(g, w) else {'required': '%s %r' % (name, w), 'observed': g, 'fail': 'total-average'}
+        return None if _stat_ok('average' if name == 'avg' else 'total', g, w, vals) else \
+            {'required': '%s %r' % (name, w), 'observed': g, 'fail': 'total-average'}
     if name in ('highest', 'lowest'):
-        cnt = op[1]
-        v, ix = getattr(c, name + '_values')(cnt)
-        w = sorted(vals, reverse=(name == 'highest'))[:cnt]
-        if not _same_vals(list(v), w):
-            return {'required': 'first %d of the sort %s' % (cnt, w[:8]), 'observed': list(v)[:8],
-                    'fail': name + '_values-values'}
-        if len(ix) != cnt or len(set(ix)) != cnt or any(not (0 <= i < n) or not _near(vals[i], x)
-                                                          for i, x in zip(ix, v)):
-            return {'required': 'vals[idx[i]] == values[i], indices distinct', 'observed': list(ix)[:12],
-                    'fail': name + '_values-indices'}
+        cnt = int(op[1])                     # 2.0 / '2' mean 2 (the API coerces with int())
+        for ask in (1, 2):                   # the second time after the first answer was edited in place
+            v, ix = getattr(c, name + '_values')(op[1])
+            w = sorted(vals, reverse=(name == 'highest'))[:cnt]
+            if not _same_vals(list(v), w):
+                return {'required': 'first %d of the sort %s' % (cnt, w[:8]), 'observed': list(v)[:8],
+                        'fail': name + '_values-values'}
+            if len(ix) != cnt or len(set(ix)) != cnt or any(not (0 <= i < n) or not _near(vals[i], x)
+                                                              for i, x in zip(ix, v)):
+                return {'required': 'vals[idx[i]] == values[i], indices distinct', 'observed': list(ix)[:12],
+                        'fail': name + '_values-indices'}
+            if not (_scramble_result(v) and _scramble_result(ix)):
+                break
         return None
     if name == 'dts':
         got = list(c.datetimes)
@@ -1209,6 +1695,12 @@ def _read_check(c, st, op):
             res = {'required': 'twin holds the same values', 'observed': list(d.values)[:8], 'fail': 'twin-values'}
         if res:
             res['fail'] = 'twin-' + res['fail']
+        else:
+            try:                             # the caller edits the twin; the source must not notice (later reads)
+                d[0] = -987654.25
+                d.header.metadata['edited'] = 'twin'
+            except Exception:                # noqa: BLE001 - immutable twin
+                pass
         return res
     if name == 'daily_of':
         # consumer chain: hourly -> <stat>_daily -> DailyCollection.group_by_month / <stat2>_monthly
@@ -1220,14 +1712,15 @@ def _read_check(c, st, op):
             return res
         # (a period whose window wraps the year end inside one day lists that day twice - C04's
         # chronological-visits reading, tolerated here as in _cmp_stats: take the validated keys)
+        # (the daily values were just validated against the statement; the monthly consumer is judged on
+        # the daily numbers it was actually given, so only its own float noise is allowed)
         days = list(dcoll.datetimes)
-        dvals = [_stat_ref(stat, p, dayg[k]) for k in days]
+        dvals = [float(x) for x in dcoll.values]
         leap = st.t[7]
         mexp = {}
         for k, v in zip(days, dvals):
             mexp.setdefault((date(_year(leap), 1, 1) + timedelta(days=k - 1)).month, []).append(v)
-        res = _cmp_groups(dcoll.group_by_month(), {k: [float(x) for x in v] for k, v in mexp.items()},
-                          'group_by_month of the %s_daily collection' % stat)
+        res = _cmp_groups(dcoll.group_by_month(), mexp, 'group_by_month of the %s_daily collection' % stat)
         if res is None:
             r2 = _op_method(dcoll, 'monthly', stat2, p2)
             mlist = [k for k in _chrono_first(k[0] if isinstance(k, tuple) else k for k in st.listing('month'))
@@ -1238,7 +1731,7 @@ def _read_check(c, st, op):
             else:
                 for k, v in zip(keys, r2.values):
                     w = float(_stat_ref(stat2, p2, mexp[k]))
-                    if not _near(v, w):
+                    if not _stat_ok(stat2, v, w, mexp[k]):
                         res = {'required': '%s_monthly of the %s_daily collection, month %s = %r'
                                % (stat2, stat, k, w), 'observed': v, 'fail': 'wrong-statistic'}
                         break
@@ -1258,9 +1751,11 @@ def _run_history(inp):
     sts = [_St(s) for s in objs]
     reals = [None] * len(objs)
     known = None
+    del _HELD[:]
     for step, full in enumerate(inp['ops']):
         k, op = full[0], full[1:]
         st = sts[k]
+        _STEP[0] = step
         if st.dead:
             continue
         base_sig = {'coll': st.kind, 'hist': True, 'imm': st.imm, 'span': _classify(st.t) if st.kind != 'daily'
@@ -1328,13 +1823,26 @@ def _run_history(inp):
                 known = known or out   # go on: later steps of this history are still checked
                 continue
             return out
+    for what, r, snap in _HELD:              # answers kept by the caller: later calls must not have changed them
+        try:
+            now = (list(r.values), list(r.datetimes))
+        except Exception as e:               # noqa: BLE001
+            now = 'raises %s' % type(e).__name__
+        if now != snap:
+            del _HELD[:]
+            return {'required': 'the answer %s is still what it was at the end of the history' % what,
+                    'observed': now if isinstance(now, str) else now[0][:12],
+                    'sig': {'hist': True, 'fail': 'earlier-answer-changed', 'objs': len(objs)}}
+    del _HELD[:]
     return known
 
 
 def _is_open_finding(sig):
-    """The open finding C03-immutable-continuous-group-by-month (see known_findings.d/C03.json)."""
-    return sig.get('fail') == 'raises TypeError' and sig.get('raised_in') == 'group_by_month' and \
-        sig.get('coll') == 'cont' and sig.get('imm') is True
+    """The open finding C03-immutable-continuous-month-visited-twice (see known_findings.d/C03.json; repaired
+    by fixes/C03_7_immutable_month_visited_twice.patch): group_by_month of an IMMUTABLE continuous collection
+    over a period that wraps the year end inside one month raises TypeError (tuple + list)."""
+    return sig.get('fail') == 'raises TypeError' and sig.get('coll') == 'cont' and sig.get('imm') is True and \
+        sig.get('span') == 'wrap-same-month' and sig.get('raised_in', 'group_by_month') == 'group_by_month'
 
 
 def _resync(st, c):
@@ -1453,12 +1961,40 @@ def _check_process_order(inp):
             'observed': r.get('observed'), 'sig': sig}
 
 
+_TIMES = {}
+
+
 def check_case(op, inp):
-    if op == 'history':
-        return _run_history(inp)
-    if op == 'process_order':
-        return _check_process_order(inp)
-    return _check_plain(op, inp)
+    if not os.environ.get('C03_DEBUG'):
+        return _check_case(op, inp)
+    import time
+    t0 = time.time()
+    try:
+        return _check_case(op, inp)
+    finally:
+        k = _TIMES.setdefault(op, [0, 0.0])
+        k[0] += 1
+        k[1] += time.time() - t0
+
+
+def _check_case(op, inp):
+    try:
+        if op == 'history':
+            return _run_history(inp)
+        if op == 'process_order':
+            return _check_process_order(inp)
+        return _check_plain(op, inp)
+    except Exception as e:                   # noqa: BLE001
+        import traceback
+        names = [f.name for f in traceback.extract_tb(e.__traceback__)]
+        if '_make' not in names:
+            raise
+        # the inputs are collections of the statement, handed over in a documented form: they can be built
+        where = [n for n in names[names.index('_make'):] if not n.startswith('_')][-1:] or ['constructor']
+        shapes = inp.get('shapes') if isinstance(inp, dict) else None
+        return {'required': 'the collection of this input can be built (forms: %s)' % (shapes or 'see objs'),
+                'observed': 'raises %s: %s (in %s)' % (type(e).__name__, str(e)[:120], where[0]),
+                'sig': {'fail': 'construction-raises', 'exception': type(e).__name__, 'op': op}}
 
 
 # ---- generators of histories (plain numbers; the public state is simulated with _St/_spec_apply)
@@ -1529,8 +2065,27 @@ def _feb_period(rng, cap):
     return (d0.month, d0.day, 0, d1.month, d1.day, 23, ts, leap)
 
 
+def _gen_shapes(rng):
+    """Forms in which period, datetimes and values are handed over (None: plain ints / lists)."""
+    if rng.random() < 0.35:
+        return None
+    return {'ap': rng.choice(AP_FORMS), 'v': rng.choice(V_FORMS), 'd': rng.choice(D_FORMS),
+            'dt': rng.choice(DT_FORMS), 'scr': rng.random() < 0.6}
+
+
+def _with_shapes(rng, d):
+    sh = _gen_shapes(rng)
+    if sh is not None:
+        d['shapes'] = sh
+    return d
+
+
 def _gen_obj(rng, cap, kind=None, t=None, model=False):
     """One object spec (plain numbers)."""
+    return _with_shapes(rng, _gen_obj0(rng, cap, kind, t, model))
+
+
+def _gen_obj0(rng, cap, kind=None, t=None, model=False):
     kind = kind or rng.choice(['cont', 'cont', 'cont', 'disc', 'disc', 'daily'])
     imm = rng.random() < 0.25
     if kind == 'cont':
@@ -1578,7 +2133,7 @@ def _gen_read(rng, st, model=False):
         if r < 0.65:
             stat = rng.choice(['average', 'total', 'percentile', 'percentile'])
             return ['stat', 'monthly', stat, _gen_p(rng)[0] if stat == 'percentile' else 0]
-        return _gen_order_read(rng, n)
+        return _gen_order_read(rng, n, model)
     bys = ['day', 'month', 'mph'] if ts <= 12 or rng.random() < 0.25 else ['day', 'month']
     r = rng.random()
     if r < 0.28:
@@ -1600,10 +2155,10 @@ def _gen_read(rng, st, model=False):
         s2 = rng.choice(['average', 'total', 'percentile', 'percentile'])
         return ['daily_of', s1, _gen_p(rng)[0] if s1 == 'percentile' else 0, s2,
                 _gen_p(rng)[0] if s2 == 'percentile' else 0]
-    return _gen_order_read(rng, n)
+    return _gen_order_read(rng, n, model)
 
 
-def _gen_order_read(rng, n):
+def _gen_order_read(rng, n, model=False):
     r = rng.random()
     if r < 0.3:
         return ['pct', _gen_p(rng)[0]]
@@ -1613,7 +2168,10 @@ def _gen_order_read(rng, n):
         return ['minmax']
     if r < 0.6:
         return [rng.choice(['avg', 'total'])]
-    return [rng.choice(['highest', 'lowest']), rng.choice([1, n, rng.randrange(1, n + 1)])]
+    cnt = rng.choice([1, n, rng.randrange(1, n + 1)])
+    if not model and rng.random() < 0.3:
+        cnt = rng.choice([float(cnt), str(cnt), ' %d ' % cnt])     # what a slider / a text field delivers (kind i)
+    return [rng.choice(['highest', 'lowest']), cnt]
 
 
 def _gen_mutator(rng, st, model=False):
@@ -1623,6 +2181,8 @@ def _gen_mutator(rng, st, model=False):
         kind, vals = _gen_values(rng, n, 'int' if model else None)
         if rng.random() < 0.3:
             vals = list(reversed(st.vals))          # same multiset, other order
+        if rng.random() < 0.5:
+            return ['setvals', vals, rng.choice(['tuple', 'deque', 'array', 'dictvalues', 'pyint', 'list'])]
         return ['setvals', vals]
     if r < 0.6:
         i = rng.choice([0, n - 1, -1, -n, rng.randrange(-n, n)])
@@ -1648,12 +2208,18 @@ def _gen_refused(rng, st, model=False):
             ['lowest', n + 2], ['lowest', -3]]
     if st.kind != 'daily':
         opts += [['cull', b] for b in BAD_TS] * 2
+        if st.kind == 'cont':                # valid timesteps that do not divide the collection's own
+            opts += [['cull', x] for x in VALID_TS if ts % x != 0][:6]
         iv = rng.choice(['daily', 'monthly', 'monthlyperhour'] if ts <= 12 else ['daily', 'monthly'])
         opts += [['stat', iv, 'percentile', rng.choice([-1, 100.5, 101, 1000])]] * 3
     else:
         opts += [['stat', 'monthly', 'percentile', rng.choice([-1, 100.5, 101])]] * 3
     if not model:
         opts += [['unit', 'bogus'], ['unit', 'W'], ['unit', '']]
+        opts += [['pct', '50'], ['pct', None], ['highest', 'two'], ['lowest', None]]    # text where a number is due
+        if st.kind != 'daily':
+            opts += [['cull', str(ts)], ['cull', None], ['cull', float(ts) + 0.5]]
+        opts += [['setvals', [float(i) for i in range(n)], f] for f in ('gen', 'iter', 'map')]
     if st.imm:
         opts += [_gen_mutator(rng, st, model) for _ in range(12)]
     return rng.choice(opts)
@@ -1744,13 +2310,35 @@ def _hist_counts(ctx, h, prefix='hist'):
         ctx.count('%s:leap:%s' % (prefix, t[7]))
         ctx.count('%s:ts:%d' % (prefix, t[6]))
     sts = [_St(o) for o in h['objs']]
+    for o in h['objs']:
+        sh = o.get('shapes')
+        if sh:
+            ctx.count('%s:built-in-other-forms' % prefix)
+    touched = set()
     for full in h['ops']:
         st, op = sts[full[0]], full[1:]
         if op[0] in MUTATORS:
+            n = len(st.vals)
             ok = _spec_apply(st, op)
             ctx.count('%s:op:%s:%s' % (prefix, op[0], 'accepted' if ok else 'refused'))
+            if op[0] == 'setvals':
+                form = op[2] if len(op) > 2 else 'list'
+                why = 'accepted' if ok else 'immutable' if st.imm else 'not-a-sequence' if not isinstance(op[1], list) \
+                    else 'empty' if not op[1] else 'wrong-length' if len(op[1]) != n else 'one-shot-iterable'
+                ctx.count('branch:values-setter:%s' % why)
+                ctx.count('branch:values-setter:given-as-%s' % form)
+            if op[0] == 'cull' and ok:
+                touched.add(full[0])
         else:
-            ctx.count('%s:op:%s%s' % (prefix, op[0], ':refused' if _read_refused(st, op) else ''))
+            refused = _read_refused(st, op)
+            ctx.count('%s:op:%s%s' % (prefix, op[0], ':refused' if refused else ''))
+            needs = op[0] in ('dts', 'twin') or (op[0] == 'group' and op[1] == 'mph') or \
+                (op[0] == 'stat' and op[1] == 'monthlyperhour')
+            if st.kind == 'cont' and needs and not refused:
+                ctx.count('branch:cont.datetimes:%s' % ('slot-already-filled' if full[0] in touched else 'lazy-first-use'))
+                touched.add(full[0])
+            if op[0] in ('highest', 'lowest'):
+                ctx.count('branch:highest_lowest:hist-count-given-as-%s' % type(op[1]).__name__)
     if h['ops'] and (h['ops'][0][1] in MUTATORS or _read_refused(_St(h['objs'][h['ops'][0][0]]), h['ops'][0][1:])):
         ctx.count('%s:first-op-mutator-or-refused' % prefix)
 
@@ -1963,16 +2551,16 @@ def _hist_impl_step(c, kind, leap_of, op):
     raise ValueError('unknown op %r' % (op,))
 
 
-def _step_agrees(mo, io):
+def _step_agrees(mo, io, scale=None):
     if isinstance(io, tuple):
         if not mo.startswith('ok '):
             return False
         if io[0] == 'stat':
             pm = _parse_op(mo)
             return not isinstance(pm, str) and pm[0] == io[1] and pm[1] == io[2] and len(pm[2]) == len(io[3]) \
-                and all(_close(a, b, False) for a, b in zip(pm[2], io[3]))
+                and all(_close(a, b, False, scale) for a, b in zip(pm[2], io[3]))
         mv = [Fraction(x) for x in mo[3:].split()]
-        return len(mv) == len(io[1]) and all(_close(a, b, False) for a, b in zip(mv, io[1]))
+        return len(mv) == len(io[1]) and all(_close(a, b, False, scale) for a, b in zip(mv, io[1]))
     return ' '.join(mo.split()) == ' '.join(io.split())
 
 
@@ -2002,11 +2590,16 @@ def _corr_histories(ctx):
             except Exception as e:       # noqa: BLE001
                 io = 'err:' + err_name(e)
                 if io == 'err:type' and o['kind'] == 'cont' and o.get('imm') and ms.startswith('ok') and \
+                        _classify(tuple(o['t'])) == 'wrap-same-month' and \
                         ((op[0] == 'group' and op[1] == 'month') or (op[0] == 'stat' and op[1] == 'monthly')):
-                    ctx.count('corr-hist:open-finding-hit')   # C03-immutable-continuous-group-by-month
+                    ctx.count('corr-hist:open-finding-hit')   # C03-immutable-continuous-month-visited-twice
                     continue
             ctx.count('corr-hist:steps')
-            if not _step_agrees(ms, io):
+            try:
+                sc = _scale(c._values)
+            except Exception:        # noqa: BLE001
+                sc = None
+            if not _step_agrees(ms, io, sc):
                 ctx.disagree('hist', {'history': {'objs': h['objs'], 'ops': h['ops'][:i + 1]}, 'step': i,
                                       'op': op}, ms[:400], (io if isinstance(io, str) else repr(io))[:400])
                 break
@@ -2034,7 +2627,12 @@ IMMUTABLE_MONTH_INPUT = {'objs': [{'kind': 'cont', 'imm': True, 't': [1, 31, 0, 
                                    'vals': [float(i) for i in range(48)]}],
                          'ops': [[0, 'group', 'day'], [0, 'group', 'month']]}
 
+# HourlyContinuousCollectionImmutable.group_by_month, period wrapping the year end inside one month (known
+# finding C03-immutable-continuous-month-visited-twice, repaired by fixes/C03_7_immutable_month_visited_twice.patch)
+IMMUTABLE_TWICE_INPUT = {'coll': 'cont', 'by': 'month', 't': [1, 20, 0, 1, 10, 23, 1, False], 'imm': True}
+
 ORACLE_CORPUS = [
+    ('partition', IMMUTABLE_TWICE_INPUT),
     ('partition', {'coll': 'cont', 'by': 'month', 't': [1, 30, 0, 3, 2, 23, 1, False]}),
     ('partition', {'coll': 'cont', 'by': 'day', 't': [12, 26, 0, 1, 3, 23, 1, False]}),
     ('partition', {'coll': 'cont', 'by': 'month', 't': [1, 20, 0, 1, 10, 23, 1, False]}),
@@ -2055,29 +2653,146 @@ ORACLE_CORPUS = [
 ]
 
 
+def _month_of_doy(leap, d):
+    return (date(_year(leap), 1, 1) + timedelta(days=d - 1)).month
+
+
+def _count_branches(ctx, op, inp):
+    """Counted strata of kind (j): which branch of the anchored functions an input takes (worked out from
+    the plain numbers of the input; the list of branches is in the module header)."""
+    c = ctx.count
+    if op in ('partition', 'stats_of_groups', 'cont_vs_disc'):
+        t = tuple(inp['t'])
+        coll = inp.get('coll', 'cont')
+        by = inp.get('by') or {'daily': 'day', 'monthly': 'month', 'monthlyperhour': 'mph'}.get(inp.get('iv'))
+        span = _classify(t)
+        if coll == 'cont':
+            if by in ('day', None):
+                c('branch:cont.group_by_day:' + ('wrapped-period (two loops)' if span.startswith('wrap') else 'plain-period'))
+            if by in ('month', None):
+                sm, sd, _, em, ed, _, _, leap = t
+                if span == 'wrap-same-month':
+                    c('branch:cont.group_by_month:month-visited-twice')
+                elif sm == em and span == 'partial':
+                    c('branch:cont.group_by_month:single-month (no loop)')
+                else:
+                    c('branch:cont.group_by_month:several-months')
+                c('branch:cont.group_by_month:first-month-%s' % ('partial' if sd != 1 else 'whole'))
+            if by in ('mph', None):
+                c('branch:cont.datetimes:lazy-slot-filled-by-this-read')
+        else:
+            c('branch:disc.group_by_day:%s-keys' % ('366' if t[7] else '365')) if by == 'day' else None
+            if by == 'mph':
+                c('branch:disc.group_by_month_per_hour:timestep-%d' % t[6])
+        if op == 'stats_of_groups':
+            c('branch:_time_interval_operation:op-' + inp['stat'])
+            c('branch:_time_interval_operation:interval-' + inp['iv'])
+            c('branch:_time_interval_operation:%s' % ('new-header (sub-hourly, daily/monthly)'
+                                                      if t[6] != 1 and inp['iv'] in ('daily', 'monthly')
+                                                      else 'header-duplicated'))
+            if coll == 'disc':
+                have = set(_key_of(by, _ref_dt(inp['dleap'], m)) for m in inp['moys'])
+                listed = set(_key_of(by, _ref_dt(t[7], m)) for m in ref_moys(t))
+                c('branch:_time_interval_operation:%s' % ('empty-group-skipped' if listed - have else 'every-listed-group-has-data'))
+            vals = inp.get('vals')
+            if vals and by == 'day' and (coll == 'cont' or len(vals) == len(ref_moys(t))) and t[2] == 0 and t[5] == 23:
+                per = 24 * t[6]
+                if any(not any(vals[i:i + per]) for i in range(0, len(vals), per)):
+                    c('branch:_time_interval_operation:group-of-zeros-is-not-empty')
+                if any(any(vals[i:i + per]) and sum(vals[i:i + per]) == 0 for i in range(0, len(vals), per)):
+                    c('branch:_time_interval_operation:group-summing-to-zero')
+            if inp['stat'] == 'percentile':
+                c('branch:_time_interval_operation:percentile-%s' % ('at-bound' if inp['p'] in (0, 100) else 'inside'))
+    elif op == 'daily_month':
+        doys, leap = inp['doys'], inp['leap']
+        c('branch:daily.group_by_month:%s' % ('leap' if leap else 'common'))
+        if any(a > b for a, b in zip(doys, doys[1:])):
+            c('branch:daily.group_by_month:days-not-ascending')
+        if len(set(doys)) < len(doys):
+            c('branch:daily.group_by_month:repeated-day')
+        if any(_month_of_doy(leap, d) != _month_of_doy(leap, d + 1) for d in doys if d < (366 if leap else 365)):
+            c('branch:daily.group_by_month:last-day-of-a-month')
+        if (366 if leap else 365) in doys:
+            c('branch:daily.group_by_month:last-day-of-the-year')
+        if len(set(_month_of_doy(leap, d) for d in doys)) < 12:
+            c('branch:daily._monthly_operation:empty-month-skipped')
+    elif op == 'order_stats':
+        n = len(inp['vals'])
+        k = Fraction(n - 1) * Fraction(inp['p']) / 100
+        c('branch:_percentile:%s' % ('on-a-value (f == c)' if k.denominator == 1 else 'interpolated'))
+        c('branch:order_stats:class-%s%s' % (_order_class_for(inp.get('cls', 'daily'), n), '-imm' if inp.get('imm') else ''))
+        c('branch:highest_lowest:count-%s' % ('all' if int(inp['count']) == n else 'one' if int(inp['count']) == 1 else 'some'))
+        c('branch:highest_lowest:count-given-as-%s' % type(inp['count']).__name__)
+        if len(set(inp['vals'])) < n:
+            c('branch:highest_lowest:ties')
+        if n == 1:
+            c('branch:_percentile:single-value')
+
+
 def _oracle_cases(ctx):
+    for op, inp in _oracle_cases0(ctx):
+        _count_branches(ctx, op, inp)
+        yield op, inp
+
+
+def _oracle_cases0(ctx):
     rng = ctx.rng
     big = ctx.searching or not ctx.quick
     for c in ORACLE_CORPUS:
         yield c
     # continuous collections: whole-day periods of every shape
-    nper = 500 if big else 56
+    nper = 400 if big else 40
     for i in range(nper):
         t = _gen_fullday(rng, 12000 if i % 7 else 40000)
+        imm = rng.random() < 0.3
         for by in ('day', 'month', 'mph'):
-            if by == 'mph' and t[6] > 6 and rng.random() < 0.8:
+            if by == 'mph' and t[6] > 6 and rng.random() < 0.5:
                 continue
-            yield 'partition', {'coll': 'cont', 'by': by, 't': list(t)}
+            yield 'partition', _with_shapes(rng, {'coll': 'cont', 'by': by, 't': list(t), 'imm': imm})
         if i % 3 == 0 and len(ref_moys(t)) <= 12000 and t[6] <= 12:
-            yield 'cont_vs_disc', {'t': list(t)}
-        if t[6] <= 12:
+            yield 'cont_vs_disc', _with_shapes(rng, {'t': list(t)})
+        if t[6] <= 12 or rng.random() < 0.6:
             iv = rng.choice(['daily', 'monthly', 'monthlyperhour'])
             stat = rng.choice(['average', 'total', 'percentile'])
             p, _ = _gen_p(rng)
             _, vals = _gen_values(rng, len(ref_moys(t)))
-            yield 'stats_of_groups', {'coll': 'cont', 'iv': iv, 'stat': stat, 'p': p, 't': list(t), 'vals': vals}
+            yield 'stats_of_groups', _with_shapes(rng, {'coll': 'cont', 'iv': iv, 'stat': stat, 'p': p, 't': list(t),
+                                                        'vals': vals, 'imm': rng.random() < 0.3})
+    # rare branches as strata of their own (kind j): a period inside one month (group_by_month without its
+    # loop), whole days / months of zeros and of cancelling values (a group that sums to 0 is not an empty group)
+    for _ in range(60 if big else 8):
+        leap = rng.random() < 0.5
+        m = rng.randrange(1, 13)
+        a = rng.randrange(1, MLEN[leap][m - 1] + 1)
+        b = rng.randrange(a, MLEN[leap][m - 1] + 1)
+        t = (m, a, 0, m, b, 23, rng.choice([1, 1, 2, 4, 12, 60] if b - a < 6 else [1, 2]), leap)
+        imm = rng.random() < 0.4
+        yield 'partition', _with_shapes(rng, {'coll': 'cont', 'by': 'month', 't': list(t), 'imm': imm})
+        _, vals = _gen_values(rng, len(ref_moys(t)))
+        yield 'stats_of_groups', _with_shapes(rng, {'coll': 'cont', 'iv': 'monthly', 'stat': rng.choice(['average', 'total', 'percentile']),
+                                                    'p': _gen_p(rng)[0], 't': list(t), 'vals': vals, 'imm': imm})
+    for _ in range(60 if big else 8):
+        t = _gen_fullday(rng, 4000)
+        per = 24 * t[6]
+        n = len(ref_moys(t))
+        vals = [float(rng.randrange(1, 500)) for _ in range(n)]
+        for d0 in rng.sample(range(n // per), min(n // per, rng.choice([1, 2, 40]))):
+            if rng.random() < 0.5:
+                vals[d0 * per:(d0 + 1) * per] = [0.0] * per
+            else:
+                x = float(rng.randrange(1, 99))
+                vals[d0 * per:(d0 + 1) * per] = [x, -x] * (per // 2)
+        iv = rng.choice(['daily', 'daily', 'monthly', 'monthlyperhour'] if t[6] <= 12 else ['daily', 'monthly'])
+        stat = rng.choice(['average', 'total', 'percentile'])
+        if rng.random() < 0.5:
+            yield 'stats_of_groups', _with_shapes(rng, {'coll': 'cont', 'iv': iv, 'stat': stat, 'p': _gen_p(rng)[0],
+                                                        't': list(t), 'vals': vals, 'imm': rng.random() < 0.3})
+        else:
+            yield 'stats_of_groups', _with_shapes(rng, {'coll': 'disc', 'iv': iv, 'stat': stat, 'p': _gen_p(rng)[0],
+                                                        't': list(t), 'dleap': t[7], 'moys': ref_moys(t), 'vals': vals,
+                                                        'imm': rng.random() < 0.3})
     # discontinuous collections
-    for _ in range(600 if big else 72):
+    for _ in range(500 if big else 56):
         t, dleap, moys, tag = _gen_disc(rng, 1500)
         if tag == 'other-leap':
             continue                         # header and datetimes disagree on the year: not a collection of the statement
@@ -2085,31 +2800,56 @@ def _oracle_cases(ctx):
             bys = ('day', 'month')
         else:
             bys = ('day', 'month', 'mph')
+        imm = rng.random() < 0.3
         for by in bys:
-            if by == 'mph' and t[6] > 12:
+            if by == 'mph' and t[6] > 12 and rng.random() < 0.4:
                 continue
-            yield 'partition', {'coll': 'disc', 'by': by, 't': list(t), 'dleap': dleap, 'moys': moys}
+            yield 'partition', _with_shapes(rng, {'coll': 'disc', 'by': by, 't': list(t), 'dleap': dleap, 'moys': moys,
+                                                  'imm': imm})
         if tag in ('full', 'holes'):
-            iv = rng.choice(['daily', 'monthly', 'monthlyperhour'] if t[6] <= 12 else ['daily', 'monthly'])
+            iv = rng.choice(['daily', 'monthly', 'monthlyperhour'] if t[6] <= 12 or rng.random() < 0.6 else ['daily', 'monthly'])
             stat = rng.choice(['average', 'total', 'percentile'])
             p, _ = _gen_p(rng)
             _, vals = _gen_values(rng, len(moys))
-            yield 'stats_of_groups', {'coll': 'disc', 'iv': iv, 'stat': stat, 'p': p, 't': list(t), 'dleap': dleap,
-                                      'moys': moys, 'vals': vals}
+            yield 'stats_of_groups', _with_shapes(rng, {'coll': 'disc', 'iv': iv, 'stat': stat, 'p': p, 't': list(t),
+                                                        'dleap': dleap, 'moys': moys, 'vals': vals,
+                                                        'imm': rng.random() < 0.3})
     for _ in range(300 if big else 40):
         leap = rng.random() < 0.5
         n = 366 if leap else 365
         doys = sorted(rng.sample(range(1, n + 1), rng.choice([1, 3, 30, 200, n])))
         if rng.random() < 0.3:
             doys += [n] if n not in doys else []
+        r = rng.random()
+        if r < 0.25:                         # days not in ascending order (kind i: unsorted input)
+            rng.shuffle(doys)
+        elif r < 0.35:                       # the same day twice
+            doys += [rng.choice(doys) for _ in range(rng.randrange(1, 4))]
+        elif r < 0.45:                       # the last days of the months, in both kinds of year
+            ends = [sum(MLEN[leap][:m]) for m in range(1, 13)]
+            doys = sorted(set(ends + [e + 1 for e in ends if e < n]))
         _, vals = _gen_values(rng, len(doys))          # not in ascending order inside a month
-        yield 'daily_month', {'leap': leap, 'doys': doys, 'vals': vals}
+        yield 'daily_month', _with_shapes(rng, {'leap': leap, 'doys': doys, 'vals': vals, 'p': _gen_p(rng)[0],
+                                                'imm': rng.random() < 0.3})
     for _ in range(20000 if big else 1000):
-        n = rng.choice([1, 2, 3, 4, 5, 8, 9, 24, 25, rng.randrange(1, 200)])
+        n = rng.choice([1, 2, 3, 4, 5, 8, 9, 12, 24, 25, 48, rng.randrange(1, 200)])
         _, vals = _gen_values(rng, n)
         p, _ = _gen_p(rng)
         p2, _ = _gen_p(rng)
-        yield 'order_stats', {'vals': vals, 'p': p, 'p2': p2, 'count': rng.randrange(1, n + 1)}
+        cnt = rng.randrange(1, n + 1)
+        r = rng.random()
+        if r < 0.1:
+            cnt = float(cnt)
+        elif r < 0.2:
+            cnt = str(cnt)
+        yield 'order_stats', _with_shapes(rng, {'vals': vals, 'p': p, 'p2': p2, 'count': cnt,
+                                                'cls': rng.choice(ORDER_CLASSES), 'imm': rng.random() < 0.35})
+
+
+def _flush_shape_counts(ctx):
+    for k, v in sorted(SHAPE_COUNTS.items()):
+        ctx.count(k, v)
+    SHAPE_COUNTS.clear()
 
 
 def oracle(ctx):
@@ -2135,9 +2875,15 @@ def oracle(ctx):
     run_oracle_cases(ctx, until_enough(_oracle_histories(ctx)), capped)
     if not enough() and len(ctx.failures) < 200:
         _oracle_process_orders(ctx)
+    _flush_shape_counts(ctx)
+    if os.environ.get('C03_DEBUG'):          # development aid: list every failure, not only the first
+        print('C03_DEBUG times', {k: (v[0], round(v[1], 2)) for k, v in _TIMES.items()})
+        for f in ctx.failures:
+            print('C03_DEBUG', f.get('op'), json.dumps(f.get('sig'), default=str), str(f.get('required'))[:300], '|',
+                  str(f.get('observed'))[:200], '|', json.dumps(f.get('input'), default=str)[:300])
 
 
-LEVEL_TEXT = ('Machine-checked Lean 4 theorems (33) over an executable, value-polymorphic model of the grouping code: '
+LEVEL_TEXT = ('Machine-checked Lean 4 theorems (39) over an executable, value-polymorphic model of the grouping code: '
               'the datetime-keyed groups by day, month and month-per-hour (all 12 timesteps; key list proved '
               'duplicate-free and complete for grid date-times) hold at each key exactly the values whose own datetime '
               'has that key, in collection order, and their concatenation is a permutation of the data (nothing lost, '
@@ -2155,8 +2901,11 @@ LEVEL_TEXT = ('Machine-checked Lean 4 theorems (33) over an executable, value-po
               'assignment, convert_to_culled_timestep, refused operations, immutable twins): reads are pure and '
               'order-independent, a refused operation leaves every observation unchanged, and after EVERY history '
               'every read answers as on a freshly constructed object with the final public state (unconditional for '
-              'discontinuous and daily collections; for continuous ones under grid-faithfulness of culling, proved '
-              'for the unchanged timestep). The model is compared with the real classes on structure-directed inputs '
+              'every class over a well-formed period: a continuous collection refuses a culling step whose timestep '
+              'does not divide its own, and culling to a dividing timestep is proved to give exactly the datetimes of '
+              'the period at that timestep). Sibling classes: the immutable twin answers every read like the mutable '
+              'class and refuses every mutator; a continuous collection answers the three groupings exactly like its '
+              'to_discontinuous() image; the two branches of the percentile (on a value / interpolated). The model is compared with the real classes on structure-directed inputs '
               'and on operation histories, step by step, on every run; an '
               'independent oracle regroups every value by its stdlib datetime.')
 LEVEL_NOTE = ('Trusted: Lean kernel; axioms propext/Classical.choice/Quot.sound only; the correspondence run '
